@@ -124,6 +124,16 @@ def make_pool(seed, n, scratch):
                      "cls": f"relative-lookup-{k + 1}", "keep": True})
     jobs[-1]["after"] = texts[0]
     jobs[-2]["after"] = texts[1]
+    # the same routines decompiled for two games whose settings name the dungeon modes differently (the names are an option of
+    # each decompiler object)
+    try:
+        cd = norm.compile_exps("def 0 {\n    dungeon_mode(3) = DMODE_OPEN;\n    dungeon_mode(4) = DMODE_REQUEST;\n    switch (dungeon_mode(5)) {\n        case DMODE_CLOSED:\n"
+                               "            a();\n            break;\n        case DMODE_OPEN_AND_REQUEST:\n            b();\n            break;\n    }\n    end;\n}\n")
+        dspec = json.loads(json.dumps(norm.spec_of(cd.routine_infos, cd.routine_ops, cd.named_coroutines)))
+        for tag, names in (("a", ["A_CLOSED", "A_OPEN", "A_REQUEST", "A_OPEN_AND_REQUEST"]), ("b", ["MODE_0", "MODE_1", "MODE_2", "MODE_3"])):
+            jobs.append({"k": "decompile_exps", "spec": dspec, "dm": names, "cls": "dungeon-mode-names-" + tag, "keep": True})
+    except Exception:
+        pass
     # a script with several hundred routines, like the game's unionall (tables and caches have sizes)
     nr = rnd.choice([520, 600, 700])
     big = "".join(f"coro C{i} {{\n    if ($A == {i}) {{\n        a{i}();\n    }} else {{\n        b();\n    }}\n    end;\n}}\n" for i in range(nr))
@@ -206,7 +216,7 @@ def compute(job, compiler=None, objs=None):
     before = (norm.raw(ops), norm.infos(infos, named))
     fn = norm.decompile_exps if job["k"] == "decompile_exps" else norm.decompile_ssbs
     try:
-        text, sm = fn(infos, ops, named, deep=False)
+        text, sm = fn(infos, ops, named, deep=False, dm=job["dm"]) if job.get("dm") else fn(infos, ops, named, deep=False)
         res = {"ok": True, "text": text, "sm": sm.serialize() if sm is not None else None}
     except Exception as e:
         res = _exc(e)
